@@ -58,8 +58,10 @@ func vRaw(tag string, typ dnsmsg.Type, nameShapes int, rdMax int) *dnsmsg.RawRes
 	return r
 }
 
-// vRich selects the larger message families (thorough tier).
+// vRich selects the larger message families (thorough tier); vPlainReply keeps the upstream reply family small even
+// then (harnesses whose subject is the query side).
 var vRich = false
+var vPlainReply = false
 
 func vRawFixed(tag string, typ dnsmsg.Type, shape int, rdlen int) *dnsmsg.RawResource {
 	r := dnsmsg.NewRaw()
@@ -102,7 +104,7 @@ func vRespMsg(tag string, maxRecs int) *dnsmsg.Msg {
 	for i := 0; i < n; i++ {
 		m.Answers = append(m.Answers, vA(tag+".an"))
 	}
-	if vRich {
+	if vRich && !vPlainReply {
 		if verifrt.Bool(tag + ".hasns") {
 			m.Authorities = append(m.Authorities, vRaw(tag+".ns", 6+64, 2, 2))
 		}
@@ -125,13 +127,20 @@ func vRespMsg(tag string, maxRecs int) *dnsmsg.Msg {
 	return m
 }
 
+// vFamForce: when >= 0 the client address family is fixed by the harness shard (more shards = more cores).
+var vFamForce = -1
+
 func vAddrPort(tag string) netip.AddrPort {
 	var a netip.Addr
 	nf := 4
 	if !vRich {
 		nf = 2
 	}
-	switch 3 - verifrt.Choose(tag+".fam", nf) {
+	fam := vFamForce
+	if fam < 0 {
+		fam = 3 - verifrt.Choose(tag+".fam", nf)
+	}
+	switch fam {
 	case 0:
 		b := verifrt.BytesN(tag+".v4", 4)
 		a = netip.AddrFrom4([4]byte{b[0], b[1], b[2], b[3]})
